@@ -6,6 +6,7 @@ import (
 	"fmt"
 	"sort"
 	"strings"
+	"sync"
 	"testing"
 
 	"github.com/honeycombio/refinery/config"
@@ -146,12 +147,16 @@ type c17node struct {
 	order []string
 	prior []string // list loaded before (kind reloaded)
 	sh    *DeterministicSharder
+	extra map[string]any
 }
 
 func (n *c17node) describe() map[string]any {
 	m := map[string]any{"kind": n.kind, "self": n.self, "list_as_seen": n.order}
 	if n.prior != nil {
 		m["list_loaded_before"] = n.prior
+	}
+	for k, v := range n.extra {
+		m[k] = v
 	}
 	return m
 }
@@ -246,6 +251,9 @@ func c17Compare(run *verifkit.Run, family string, base []string, nodes []*c17nod
 				if n.kind == "reloaded" {
 					sig = "C17/sharder/" + family + "/owner-differs-after-peer-list-change"
 				}
+				if n.kind == "changed-during-start" {
+					sig = "C17/sharder/" + family + "/sharder-keeps-list-from-before-the-change"
+				}
 				run.Violation(sig,
 					fmt.Sprintf("trace id %s: node #0 says %s, node #%d (same addresses, other order) says %s", c17q(id), c17q(ref), ni, c17q(got)),
 					map[string]any{"trace_id": c17q(id), "node_0": nodes[0].describe(), "node_other": n.describe()})
@@ -289,6 +297,7 @@ func TestVerif_C17(t *testing.T) {
 
 	run.Cases("permutations", run.N(500, 100000), func(i int, rng *verifkit.Rand) { c17PermCase(run, i, rng) })
 	run.Cases("filepeers", run.N(150, 20000), func(i int, rng *verifkit.Rand) { c17FileCase(run, i, rng) })
+	run.Cases("change-during-start", run.N(400, 40000), func(i int, rng *verifkit.Rand) { c17StartCase(run, i, rng) })
 }
 
 func c17PermCase(run *verifkit.Run, i int, rng *verifkit.Rand) {
@@ -493,4 +502,186 @@ func c17FileCase(run *verifkit.Run, i int, rng *verifkit.Rand) {
 	if i < 1 {
 		run.Sample(map[string]any{"family": "filepeers", "peer_list": all, "sharders": len(nodes), "distinct_owners": nOwners})
 	}
+}
+
+// ---- family: the peer list changes while the sharder starts -------------------------
+
+// c17ScriptedPeers is a peer.Peers (an injected dependency of the sharder) whose
+// list changes between two of the calls Start() makes on it. Like
+// RedisPubsubPeers.checkHash it then starts `go cb()` for the callbacks
+// registered so far -- and only for those; later registrations are not told
+// about earlier changes. Calls are counted on the Start goroutine only: while
+// callbacks run (mode "at once") the Start goroutine is parked inside the call,
+// in mode "late" the callback goroutines wait until Start has returned.
+type c17ScriptedPeers struct {
+	mu        sync.Mutex
+	list      []string
+	id        string
+	callbacks []func()
+	calls     int              // calls made by Start so far
+	changes   map[int][]string // before call number k (1-based) the list becomes changes[k]
+	late      bool             // started callbacks only get to run after Start has returned
+	gate      chan struct{}
+	wg        sync.WaitGroup
+	inStart   bool
+	trace     []string
+}
+
+func (p *c17ScriptedPeers) apply(newList []string, why string) {
+	p.mu.Lock()
+	p.list = append([]string(nil), newList...)
+	cbs := append([]func(){}, p.callbacks...)
+	p.trace = append(p.trace, fmt.Sprintf("%s: list becomes %d peers, %d callback(s) notified", why, len(newList), len(cbs)))
+	gate, late := p.gate, p.late && p.inStart
+	p.mu.Unlock()
+	for _, cb := range cbs {
+		cb := cb
+		p.wg.Add(1)
+		go func() {
+			defer p.wg.Done()
+			if late {
+				<-gate
+			}
+			cb()
+		}()
+	}
+	if !late {
+		p.wg.Wait()
+	}
+}
+
+// step is called at the start of every Peers method.
+func (p *c17ScriptedPeers) step(what string) {
+	p.mu.Lock()
+	if !p.inStart {
+		p.mu.Unlock()
+		return
+	}
+	p.calls++
+	k := p.calls
+	nl, ok := p.changes[k]
+	p.trace = append(p.trace, fmt.Sprintf("call %d: %s", k, what))
+	if ok {
+		delete(p.changes, k)
+	}
+	p.inStart = false // calls made by callbacks while we are parked here are not Start's
+	p.mu.Unlock()
+	if ok {
+		p.apply(nl, fmt.Sprintf("before call %d", k))
+	}
+	p.mu.Lock()
+	p.inStart = true
+	p.mu.Unlock()
+}
+
+func (p *c17ScriptedPeers) GetPeers() ([]string, error) {
+	p.step("GetPeers")
+	p.mu.Lock()
+	defer p.mu.Unlock()
+	return append([]string(nil), p.list...), nil
+}
+
+func (p *c17ScriptedPeers) GetInstanceID() (string, error) {
+	p.step("GetInstanceID")
+	return p.id, nil
+}
+
+func (p *c17ScriptedPeers) RegisterUpdatedPeersCallback(cb func()) {
+	p.step("RegisterUpdatedPeersCallback")
+	p.mu.Lock()
+	p.callbacks = append(p.callbacks, cb)
+	p.mu.Unlock()
+}
+
+func (p *c17ScriptedPeers) Start() error { return nil }
+func (p *c17ScriptedPeers) Ready() error { return nil }
+
+var _ peer.Peers = (*c17ScriptedPeers)(nil)
+
+func c17StartCase(run *verifkit.Run, i int, rng *verifkit.Rand) {
+	n := rng.Range(2, 12)
+	pool := c17List(rng, n+3, false)
+	self := pool[0]
+	// old and final list both contain the node itself (Start must find it at once)
+	mk := func() []string {
+		l := []string{self}
+		for _, a := range pool[1:] {
+			if rng.Chance(0.6) {
+				l = append(l, a)
+			}
+		}
+		verifkit.Shuffle(rng, l)
+		return l
+	}
+	old, final := mk(), mk()
+	for tries := 0; strings.Join(c17Sorted(old), ",") == strings.Join(c17Sorted(final), ",") && tries < 10; tries++ {
+		final = mk()
+	}
+	changes := map[int][]string{}
+	// Start makes three calls on Peers; 4 = right after Start has returned
+	at := rng.Range(1, 4)
+	changes[at] = final
+	var mid []string
+	if at > 1 && rng.Chance(0.3) { // an earlier, intermediate change as well
+		mid = mk()
+		changes[rng.Range(1, at-1)] = mid
+	}
+	sp := &c17ScriptedPeers{list: append([]string(nil), old...), id: self, changes: changes, late: rng.Bool(), gate: make(chan struct{})}
+	sh := &DeterministicSharder{Config: &config.MockConfig{}, Logger: &logger.NullLogger{}, Peers: sp}
+	sp.inStart = true
+	err := sh.Start()
+	sp.mu.Lock()
+	sp.inStart = false
+	callsInStart := sp.calls
+	pending := sp.changes
+	sp.changes = map[int][]string{}
+	sp.mu.Unlock()
+	close(sp.gate) // callbacks that were started during Start may run now
+	sp.wg.Wait()
+	for k := callsInStart + 1; k <= 4; k++ { // change points Start never reached: after Start
+		if nl, ok := pending[k]; ok {
+			sp.apply(nl, "after Start returned")
+		}
+	}
+	sp.wg.Wait()
+	wit := func() map[string]any {
+		return map[string]any{"self": self, "list_before": old, "list_intermediate": mid, "list_final": final, "change_before_call": at, "callbacks_run": map[bool]string{true: "after Start returned", false: "at once"}[sp.late], "peers_call_trace": sp.trace}
+	}
+	if err != nil {
+		run.Violation("C17/sharder/change-during-start/sharder-does-not-start", "Start failed although the node is in the list before and after the change: "+err.Error(), wit())
+		return
+	}
+	seen, _ := sp.GetPeers()
+	if strings.Join(c17Sorted(seen), ",") != strings.Join(c17Sorted(final), ",") {
+		run.Inconclusive("harness: scripted Peers does not report the final list")
+		return
+	}
+	ref, err := c17NewMockNode("fresh", append([]string(nil), final...), self, nil)
+	if err != nil {
+		run.Inconclusive("harness: reference sharder: " + err.Error())
+		return
+	}
+	node := &c17node{kind: "changed-during-start", self: self, order: seen, prior: old, sh: sh, extra: wit()}
+	ids := make([]string, 48)
+	for k := range ids {
+		ids[k] = c17TraceID(rng, k, final)
+	}
+	before := run.ViolationCount()
+	nOwners := c17Compare(run, "change-during-start", final, []*c17node{ref, node}, ids)
+	if run.ViolationCount() > before {
+		run.Count("change_during_start_cases_with_violation", 1)
+	}
+	run.Count("sharders_started_during_a_change", 1)
+	if nOwners >= 2 {
+		run.Nontrivial(fmt.Sprintf("start-change at=%d mid=%v late=%v n=%d->%d", at, mid != nil, sp.late, len(old), len(final)))
+	}
+	if i < 1 {
+		run.Sample(wit())
+	}
+}
+
+func c17Sorted(xs []string) []string {
+	out := append([]string(nil), xs...)
+	sort.Strings(out)
+	return out
 }
